@@ -3858,7 +3858,7 @@ class Union(Construct):
                 if {'True' if sc.flagbuildnone else f'{repr(sc.name)} in objdict'}:
                     {f'obj = objdict.get({repr(sc.name)}, None)' if sc.flagbuildnone else f'obj = objdict[{repr(sc.name)}]'}
                     {f'this[{repr(sc.name)}] = obj' if sc.name else ''}
-                    {f'buildret = this[{repr(sc.name)}] = ' if sc.name else ''}{sc._compilebuild(code)}
+                    {f'buildret = this[{repr(sc.name)}] = ' if sc.name else 'buildret = '}{sc._compilebuild(code)}
                     {f'return Container({{ {repr(sc.name)}:buildret }})'}
             """
         block += f"""
